@@ -1285,7 +1285,8 @@ class SelectBlock(Block, start=SelectStmt, end=EndSelectStmt):
         assert all(
             isinstance(case, (CaseStmt, CaseElseStmt)) and
             isinstance(body, list) and
-            all(isinstance(s, Stmt) for s in body)
+            # a body holds statements, labels and line numbers
+            all(isinstance(s, Node) for s in body)
             for case, body in case_blocks
         )
 
